@@ -63,6 +63,8 @@ AlphaSet ==
       [] Alpha = "q4" ->  \* entity forms in every kind of content element
            {E("p", ""), E("h1", ""), E("h3", ""), E("ul", ""), E("li", ""), E("pre", ""), E("blockquote", ""),
             E("div", "class:widget"), T12}
+      [] Alpha = "q5" ->  \* deep list nesting, text around nested lists
+           {E("ul", ""), E("li", ""), E("p", "")}
       [] Alpha = "t2" ->  \* thorough: the whole attribute vocabulary on one box kind
            {E("div", a) : a \in PlainAttrs \cup VocabAttrs \cup NearAttrs \cup RoleHints}
            \cup {E("p", ""), E("footer", ""), E("aside", ""), LinkDiv(""), LinkList5("")}
